@@ -19,7 +19,7 @@ From Coq Require Import List NArith Bool String Permutation.
 From JV.lib Require Import Bytes.
 From JV.gen Require Import DirectiveTables TagName.
 From JV.model Require Import ScannerSem Core TagTitle Catalog.
-From JV.proofs Require Import CatalogProofs FaithfulProofs LocalityProofs OrderProofs FaithfulExamples LocalityExamples.
+From JV.proofs Require Import CatalogProofs FaithfulProofs LocalityProofs OrderProofs FrameProofs InsertProofs FaithfulExamples LocalityExamples.
 From JV.model Require AllOf.
 From JV.spec Require AllOfSpec MacroSpec.
 From JV.proofs Require AllOfProofs MacroProofs.
@@ -114,3 +114,22 @@ Theorem macro_check_verdict_is_a_property_of_the_paste_graph :
   (check_all_macros fuel m (map fst m) [] = COk tt <-> MacroSpec.has_cycle m = false /\ MacroSpec.nameless_paste m = false).
 Proof. exact MacroProofs.check_passed_iff. Qed.
 Print Assumptions macro_check_verdict_is_a_property_of_the_paste_graph.
+
+(* ======================================================================================= *)
+(* a declaration moved among trees of ANY kind (URL / method trees included): build level.
+   PARTIAL: proved for SERVER; the same argument (remove, then insert: C20 type_inserted / enum_inserted, both
+   equivalences) gives it for TYPE and ENUM - not written out.  srv_step_ok: see C20 server_inserted.
+   STILL MISSING for the full statement (permutation of ARBITRARY top-level trees): the two-state simulation of
+   the fold for trees that make interactions (interaction / tag collections, run-wide path sets) and the
+   path-variable stage. *)
+Theorem server_moved_partial : forall pp bt banned first a t b1 b2 c,
+  tree_kids t = [] -> dk t = KServer -> kind_in KServer banned = false ->
+  let n := named (tree_dir t) (bs "Name") in
+  (forall p, In p (positions_all (b1 ++ b2)) -> srv_step_ok n (fst p) (snd p)) ->
+  build pp bt banned ((first :: a) ++ t :: b1 ++ b2) = COk c ->
+  exists c', build pp bt banned ((first :: a ++ b1) ++ t :: b2) = COk c' /\
+    Permutation (c_servers c) (c_servers c') /\
+    c_types c' = c_types c /\ c_enums c' = c_enums c /\ c_tags c' = c_tags c /\ c_inters c' = c_inters c /\
+    c_info c' = c_info c /\ c_jsight c' = c_jsight c.
+Proof. exact server_moved_lemma. Qed.
+Print Assumptions server_moved_partial.
